@@ -687,6 +687,10 @@ class Lower:
                     self.pre.append('%s %s = %s;' % (rt, t, call))
                 res = t
             for code in after:
+                # $RET: the call's result, $0 $1 ...: its argument texts (evaluated again -- use for side-effect-free arguments only)
+                code = code.replace('$RET', res)
+                for i, a in enumerate(argl):
+                    code = code.replace('$%d' % i, '(%s)' % a)
                 self.pre.append(code)
             if name in self.may_throw:
                 self.pre.append('@EXC@')
